@@ -461,6 +461,9 @@ def r8_inverse_by_interpretation(rep, src, tier):
     atoms = [dep(n_, v_, q_, a_, r_) for n_, (v_, q_, a_, r_) in zip(itertools.cycle(NAMES), itertools.product(VERS, QUALS, ARCHS, RESTR))]
     if tier != 'thorough':
         atoms = atoms[::7] + [dep('a', ('>=', '1.0'), 'any', ARCHS[2], RESTR[3])]
+    # (formulas of three and four groups, with one and with several terms: what stands in the middle is neither the first nor the last)
+    atoms += [dep('gcc', None, None, None, [[(True, 'a')], [(True, 'b')], [(True, 'c')]]),
+              dep('gcc', ('>=', '12'), 'native', [(True, 'amd64')], [[(True, 'a'), (False, 'x')], [(False, 'b')], [(True, 'c'), (True, 'y')], [(False, 'd')]])]
     fields = [[[a_]] for a_ in atoms]
     fields += [[[atoms[0], atoms[1]]], [[atoms[2]], [atoms[3], atoms[4]], [atoms[5]]]]
     fields.append([[dep('p%d' % i)] for i in range(300)])
@@ -607,7 +610,11 @@ def check(src, rep, tier):
         soft.guard('C13.R2', r2_separators, src, *out)
     elif fields_hold:
         rep.min_instances['C13.R2'] = 0
-    rep.guard('C13.R3', r3_mapping, src)
+    # (the symbolic reading of the mapping -- for EVERY name, qualifier, operator, version, architecture and profile -- rests on stand-ins
+    # for the two patterns as they are used today; the interpreted fields decide when the reader cuts a formula some other way)
+    n_r3 = sum(1 for i_ in rep.instances if i_.get('rule') == 'C13.R3')
+    soft3 = common.SoftAll(rep, lambda: fields_hold, 'the interpreted relation fields (C13.R8), which are read as written')
+    soft3.guard('C13.R3', r3_mapping, src)
     rep.guard('C13.R6', r6_delimiter_searches, src)
     rep.guard('C13.R7', r7_documented_encoding, src)
     from . import common as _common_flags
